@@ -60,6 +60,30 @@ CHECKS = {
          "set-theoretic combination. Exploration.",
          "Trusts vlib/ref_cfg.py; string-valued variables only; equality decided up to length 4.",
          "DESIGN.md section 4, C10"),
+ "C11": (PBT + " (bounded CFL intersected with the exact reference regular language; reference PDA interpreter)",
+         "(CFG | PDA) x (regex | DFA | NFA | epsilon-NFA incl. deterministic automata of non-DFA classes): the extracted intersection grammar's "
+         "bounded language (<=4) equals L(G) intersected with the reference automaton language and contains() agrees; the extracted intersection PDA, run by "
+         "the reference interpreter, accepts by final state exactly the words <=3 accepted by both; other operand types raise NotImplementedError. Exploration.",
+         "Trusts vlib/ref_cfg.py, ref_pda.py, ref_fa.py, ref_regex.py; string-valued symbols; bounded word length.",
+         "DESIGN.md section 4, C11"),
+ "C13": (PBT + " (reference PDA interpreter by pop-summary fixpoint, cross-checked per case against brute-force configuration search)",
+         "PDAs with epsilon moves, multi-symbol pushes, stack-growing epsilon cycles and reserved names, and CFGs: to_cfg, to_final_state, to_empty_stack, "
+         "their compositions, cfg.to_pda and to_pda().to_cfg() are extracted and evaluated by the reference interpreter / bounded-language fixpoint on all "
+         "words <=3 and compared with the original's language in the other acceptance mode. Exploration.",
+         "Trusts vlib/ref_pda.py (self-checked against brute force in every case) and vlib/ref_cfg.py; string-valued grammar symbols for to_pda.",
+         "DESIGN.md section 4, C13"),
+ "C14": (PBT + " (textbook FIRST/FOLLOW/PREDICT reference; parser judged by membership oracle and tree validity predicate)",
+         "Useful-symbol grammars (random reduced grammars and LL(1)-like constructions with nullable variables, nullable non-empty bodies, left recursion): "
+         "FIRST and FOLLOW per variable, the LL(1) verdict, and for LL(1) grammars get_llone_parse_tree on all words <=3 (+foreign), members of length 4 and "
+         "their extensions returns a valid tree iff member and raises only NotParsableException. Exploration.",
+         "Trusts vlib/ref_cfg.py FIRST/FOLLOW/PREDICT and bounded languages.",
+         "DESIGN.md section 4, C14"),
+ "C15": (PBT + " (validity predicate over trees and derivations; membership oracle)",
+         "CNF trees, LL(1) trees, recursive-descent trees (left and right, on grammars where it terminates) and FCFG Earley trees are validated node by node "
+         "against the production set of the grammar parsed, leaves against the word, and both derivations step by step; a tree is returned iff the word is a "
+         "member, otherwise the documented exception. Exploration.",
+         "Trusts vlib/trees.py predicates and the reference membership oracles; recursive-descent parser only run where it is guaranteed to terminate.",
+         "DESIGN.md section 4, C15"),
  "C12": (PBT + " (reference fixpoints for emptiness, finiteness, symbol classes, bounded enumeration)",
          "is_empty, is_finite, get_generating/nullable/reachable_symbols equal the reference fixpoints (two independent finiteness criteria); "
          "get_words(n) has no duplicate, only lists of Terminal and equals the bounded language; unbounded get_words() on finite languages. Exploration.",
